@@ -579,6 +579,13 @@ func (runInfo *runInfoStruct) invokeLetDerefExpr(expr *ast.DerefExpr) {
 		runInfo.rv = nilValue
 		return
 	}
+	if moduleOf(runInfo.rv) != nil {
+		// a module is not a pointer a script may look behind: the struct behind it holds
+		// the module's tables and its lock
+		runInfo.err = newStringError(expr.Expr, "cannot deference a module")
+		runInfo.rv = nilValue
+		return
+	}
 	elem := runInfo.rv.Elem()
 	if !elem.CanSet() {
 		runInfo.err = newStringError(expr, "dereferenced value cannot be assigned")
